@@ -301,3 +301,33 @@ reg(Prop("C14", "Time budget granted to a search never exceeds the clock", "Prop
          assumptions=["remaining time 1..9*10^12 ms, increment 0..2^60 ms (superset of the stated 10^12 / 10^9 domain)",
                       "time.Duration(h)*time.Millisecond is int64 multiplication by 10^6"],
          design_ref="5/C14"))
+
+_BOARD_TRUSTED = [
+    "hook board/export_verif.go (VerifSnapshot/VerifRestore deep copies, VerifCalcHash = calculateHash, VerifZobrist tables -> Gen/Zobrist.v)",
+    "attack primitives of the model are the geometric definitions of Spec/Geometry.v (tied to the engine's magic tables by C12); they only enter make through CanEnPassant",
+]
+_MKSEQ_RULE = ("random walks shaped like the search's tree walk (make / null move / undo-latest, stack depth <= 40, <= 92 operations, "
+               "pseudo-legal-but-illegal moves made and undone at once) from G1 play-out, G2 sparse and G4 mutated positions; "
+               "distinct by start position and operation list")
+
+reg(Prop("C03", "Undoing a move restores the position exactly", "Properties/C03.v",
+         [StreamCfg("mk", 12000, 300000,
+                    rule="G1/G2/G4 positions x generated (pseudo-legal, legal or not) moves and the null move; snapshot after make, "
+                         "token, snapshot after undo; distinct by position and move"),
+          StreamCfg("mkseq", 2500, 60000, judge="judge_c03", rule=_MKSEQ_RULE)],
+         trusted=_BOARD_TRUSTED,
+         assumptions=["Rep b (the three placement encodings agree, words < 2^64, ep < 64, castles < 16, non-empty hash history, clock in int16 range)",
+                      "applicable b m (explicit executable predicate, implied by IsPseudoLegal / membership in the generated moves on valid positions)"],
+         design_ref="5/C03"))
+
+reg(Prop("C04", "Incremental hash and redundant board representations never drift", "Properties/C04.v",
+         [StreamCfg("mkseq", 2500, 60000, judge="judge_c04", rule=_MKSEQ_RULE),
+          StreamCfg("mktp", 1500, 40000, judge="judge_c04tp",
+                    rule="transposition pairs a b c d / c b a d and a b c d / a d c b of legal moves from G1/G2/G4 positions, both orders legal; "
+                         "non-trivial = both orders reach the same key (placement, side to move, rights, en-passant state)"),
+          StreamCfg("mk", 6000, 100000,
+                    rule="single make/undo with the recomputed hash after make (shared with C03)")],
+         trusted=_BOARD_TRUSTED,
+         assumptions=["Rep b0 and hd (hashes b0) = calc_hash b0 at the start (established by ResetHash: C04_reset)",
+                      "arbitrary Zobrist tables (Section variable); the engine's tables are regenerated into Gen/Zobrist.v for the correspondence"],
+         design_ref="5/C04"))
